@@ -88,9 +88,110 @@ PROPS = {
     "C17": dict(trace_gen="C17", oracle="C17", relevant=rel({6: XY | SIZE, 7: ROUTE}),
                 n_trace=dict(quick=160, thorough=1500), n_search=dict(quick=2500, thorough=40000)),
     "C18": dict(level="proof", oracle="C18", n_search=dict(quick=600, thorough=20000)),
-    "C19": dict(level="proof"),
-    "C20": dict(level="proof"),
+    "C19": dict(level="proof", custom=["c19_step"]),
+    "C20": dict(level="proof", custom=["c20_step"]),
 }
+
+
+VERIF = os.path.dirname(os.path.dirname(os.path.abspath(__file__)))
+COQ = os.path.join(VERIF, "coq")
+WORK = os.path.join(VERIF, "work")
+_ENV = dict(os.environ, GOFLAGS="-mod=mod", GOPROXY="off", GOSUMDB="off", GOTOOLCHAIN="local")
+
+
+def sh(cmd, cwd=None, timeout=None):
+    p = subprocess.run(cmd, cwd=cwd, stdout=subprocess.PIPE, stderr=subprocess.STDOUT, timeout=timeout, env=_ENV, text=True, errors="replace")
+    return p.returncode, p.stdout
+
+
+def _coq_shards(run, udir, pattern, regex):
+    """runs coqc on every shard in parallel; returns the list of failing indices (or None when one could not be evaluated)"""
+    import glob as _g
+    procs = [(f, subprocess.Popen(f"ulimit -v 12000000; timeout 1500 coqc -Q {COQ} Autog {os.path.basename(f)}", cwd=udir, shell=True,
+                                  stdout=subprocess.PIPE, stderr=subprocess.STDOUT, text=True)) for f in sorted(_g.glob(os.path.join(udir, pattern)))]
+    bad = []
+    for f, p in procs:
+        out = p.communicate()[0]
+        m = re.search(regex, out, re.S)
+        if p.returncode != 0 or not m:
+            run.violation(f"the model could not be evaluated on {os.path.basename(f)}: " + out[-600:], {"kind": "correspondence", "step": "coqc", "output": out[-3000:]}, False)
+            return None
+        bad += [int(x) for x in re.findall(r"(\d+)%nat", m.group(1))]
+    return bad
+
+
+def in_router_class(c):
+    """start strictly inside the top edge of the first rectangle, end strictly inside the bottom edge of the last"""
+    f, l = c["rects"][0], c["rects"][-1]
+    return (c["start"][1] == f["TLY"] and f["TLX"] < c["start"][0] < f["BRX"]
+            and c["end"][1] == l["BRY"] and l["TLX"] < c["end"][0] < l["BRX"])
+
+
+def c19_step(run):
+    n = dict(quick=1200, thorough=20000)[run.tier]
+    for cls, k in (("inside", n), ("any", n // 6)):
+        gdir = os.path.join(run.dir, "geom_" + cls)
+        rc, out = sh([os.path.join(WORK, "vh"), "geom", "-prop", cls, "-seed", str(run.seed), "-n", str(k), "-out", gdir], timeout=3000)
+        if rc != 0:
+            run.violation("running the router failed: " + out[-600:], {"kind": "harness", "output": out[-3000:]}, False)
+            return
+        cases = json.load(open(os.path.join(gdir, "corridors.json")))
+        bad = _coq_shards(run, gdir, "geom_*.v", r"G =\s*(.*?)\s*:\s*list nat")
+        if bad is None:
+            return
+        evaluated = [c for c in cases if c.get("panic") != "skipped"]
+        run.cov["traces_validated_against_impl"] += len(evaluated)
+        run.cov["evaluations"] += len(evaluated)
+        run.cov["distinct_nontrivial"] += len({json.dumps([c["rects"], c["start"], c["end"]]) for c in evaluated if len(c["rects"]) >= 2})
+        if not run.cov["samples"]:
+            run.cov["samples"] = evaluated[:2]
+            run.cov["rule"] = "random corridors of 1-6 stacked rectangles on an 8-grid, consecutive ones overlapping in a segment of positive length; class 'inside': start strictly inside the top edge of the first, end strictly inside the bottom edge of the last rectangle; class 'any': anywhere in the first / last rectangle; non-trivial = at least 2 rectangles"
+        run.cov.setdefault("outcomes", {})[cls] = {str(o): sum(1 for c in evaluated if c["outcome"] == o) for o in (0, 1, 2)}
+        known = 0
+        for i, c in enumerate(cases):
+            fails = c.get("checks", {}).get("C19")
+            if fails or i in bad:
+                if not in_router_class(c):
+                    known += 1
+                    continue
+                if fails:
+                    run.violation("the router's answer breaks the property: " + fails[:300], {"kind": "corridor", "property": "C19", "case": c}, True)
+                else:
+                    run.pending_mismatch = getattr(run, "pending_mismatch", [])
+                    run.pending_mismatch.append(({"corridor": c}, ["geom:shortest"]))
+        if known:
+            run.known.append("property=C19 router-outside-class: geom.Shortest returns a wrong path or does not return when the start is not strictly inside the top edge of the first rectangle or the end not strictly inside the bottom edge of the last (%d of %d corridors of class '%s' in this run)" % (known, len(evaluated), cls))
+
+
+def c20_step(run):
+    n = dict(quick=400, thorough=8000)[run.tier]
+    out_json = os.path.join(run.dir, "spline.json")
+    rc, out = sh([os.path.join(WORK, "vh"), "spline", "-seed", str(run.seed), "-n", str(n), "-out", out_json], timeout=3000)
+    if rc != 0 or not os.path.exists(out_json):
+        run.violation("running the spline fitter failed: " + out[-600:], {"kind": "harness", "output": out[-3000:]}, False)
+        return
+    d = json.load(open(out_json))
+    run.cov["evaluations"] += len(d["splines"]) + len(d["roots"])
+    run.cov["distinct_nontrivial"] += sum(1 for s in d["splines"] if len(s.get("pieces") or []) >= 1)
+    run.cov["samples"] = [d["splines"][0]["corridor"], d["roots"][0]]
+    run.cov["rule"] = "spline fitter on random corridors of the router's class (bent paths are non-trivial); root finder on cubics/quadratics/linear polynomials built from chosen roots on a quarter grid"
+    run.cov["spline_pieces_histogram"] = {str(k): sum(1 for s in d["splines"] if len(s.get("pieces") or []) == k) for k in range(0, 6)}
+    shown = 0
+    for s in d["splines"]:
+        if s.get("problems") and shown < 3:
+            shown += 1
+            run.violation("the spline fitter breaks the property: " + "; ".join(s["problems"])[:300], {"kind": "spline", "property": "C20", "case": s}, True)
+    rep = 0
+    shown = 0
+    for r in d["roots"]:
+        if r.get("problem"):
+            if r["repeated"]:
+                rep += 1
+            elif shown < 3:
+                shown += 1
+                run.violation("the root finder breaks the property: " + r["problem"], {"kind": "roots", "property": "C20", "case": r}, True)
+    if rep:
+        run.known.append("property=C20 repeated-root: solve3 drops a repeated real root when rounding makes the discriminant slightly positive (%d of %d polynomials with a repeated root in this run)" % (rep, sum(1 for r in d["roots"] if r["repeated"])))
 
 
 def install_known(table):
